@@ -939,6 +939,40 @@ def hist_repeat_rollback(st, cw, sb, rng, hs):
     if st == 5: drift(); return {'kind': 'rollback', 'to': 1 - hs.rr_to, 'tags': ['script:same_rollback_again', 'user:drift']}
     return None
 
+def script_case_rename(st, cw, sb, rng):
+    """deploy; a module's file is renamed to a spelling that differs only in letter case (the old output becomes
+    managed-but-undesired, the new spelling is a NEW path); the user already has a file of their own at the new
+    spelling; deploy without --adopt must be refused as a whole"""
+    if st == 0:
+        return ['script:all'], 'cli_json', True, None
+    if st == 1:
+        cands = [m for m in cw.modules if m['enabled'] and m['type'] in ('prompt', 'command')]
+        if not cands: return None
+        m = rng.choice(cands); (fn, b), = m['files'].items()
+        new = fn.upper() if fn != fn.upper() and rng.random() < 0.5 else fn[0].upper() + fn[1:]
+        if new == fn: new = fn.lower() if fn != fn.lower() else 'X' + fn
+        m['files'] = {new: b}; cw.write()
+        tags = ['cfg:case_rename']
+        for d in cw.desired(None):
+            if os.path.basename(d['path']) in (new, new[:-3] + '.prompt.md'):
+                world.write(d['path'], b'the user\'s own file\n'); tags.append('user:collide')
+        return tags, rng.choice(CONFIRMED_ENTRIES), False, None
+    if st == 2:
+        return ['script:adopt'], 'cli_json', True, None
+    return None
+
+def hist_bootstrap_then_rollback(st, cw, sb, rng, hs):
+    """deploy; bootstrap (operator assets into the same skills root); rollback to the deploy; deploy again"""
+    if st == 0: return {'kind': 'deploy', 'adopt': False, 'flt': None, 'entry': 'cli_json', 'tags': ['script:all']}
+    if st == 1: return {'kind': 'bootstrap', 'tags': ['script:bootstrap']}
+    if st == 2: return {'kind': 'rollback', 'to': 0, 'tags': ['script:rollback_to_deploy']}
+    if st == 3:
+        cw.add_prompt(); cw.write()
+        return {'kind': 'deploy', 'adopt': False, 'flt': None, 'entry': 'cli_json', 'tags': ['script:deploy_again']}
+    if st == 4: return {'kind': 'bootstrap', 'tags': ['script:bootstrap']}
+    if st == 5: return {'kind': 'rollback', 'to': rng.choice([0, 3]), 'tags': ['script:rollback']}
+    return None
+
 def setup_all_targets(cw, rng):
     """every target of the family switched on, at least one module of every type"""
     cw.claude = True; cw.zed = True; cw.repo_agents = rng.random() < 0.5; cw.vscode = True
@@ -1437,6 +1471,7 @@ KNOWN_TEXT = {
     'K6c': 'rollback leaves behind a manifest that was first written after the chosen snapshot',
     'K15a': 'bootstrap and deploy sharing a root rewrite the manifest from their own desired state only: files written by the other command drop out of the manifest',
     'K15c': 'evolve restore writes a missing desired file without recording it in the manifest',
+    'K15d': 'rollback while a bootstrap is the head: files a deploy wrote after the chosen snapshot stay on disk (the bootstrap head does not record them) but the restored manifests do not list them (same mechanism as K6a)',
 }
 
 def oracle_ledger(ctx, hs, cw, after, base, ids, rec):
@@ -1474,6 +1509,15 @@ def oracle_ledger(ctx, hs, cw, after, base, ids, rec):
                 cls = 'K15c'
             elif {'deploy', 'bootstrap'} <= kinds_here:
                 cls = 'K15a'      # a root shared by deploy and bootstrap: its manifest reflects one command's desired state only
+            elif kind == 'rollback':
+                # the head at rollback time (replay over the records before this rollback's own)
+                prior = hs.snaps[:-1] if hs.snaps and hs.snaps[-1]['kind'] == 'rollback' else hs.snaps
+                head = None
+                for i_, sn in enumerate(prior):
+                    if sn['kind'] in ('deploy', 'bootstrap'): head = i_
+                    elif sn['kind'] == 'rollback': head = sn['to']
+                if head is not None and prior[head]['kind'] == 'bootstrap':
+                    cls = 'K15d'  # rollback with a bootstrap as head: it deletes only what the bootstrap recorded
             hs.lost[p] = cls
         r2 = dict(rec, path=p, cls=cls, manifest_last_writer=lw, file_writer=o['kind'])
         if cls and ctx.is_known(cls):
@@ -1563,6 +1607,14 @@ def script_shared_root_filter(st, cw, sb, rng):
     if st == 0:
         return ['script:all'], 'cli_json', True, None
     if st in (1, 2, 3):
+        if st == 1 and rng.random() < 0.4:
+            # the shared directory keeps only ONE legacy-named manifest, owned by one of the two targets
+            keep = rng.choice(['codex', 'zed']); other = 'zed' if keep == 'codex' else 'codex'
+            pk = cw.project + '/' + mf_name(keep); po = cw.project + '/' + mf_name(other); leg = cw.project + '/' + LEGACY
+            if os.path.exists(pk):
+                os.rename(pk, leg)
+                if os.path.exists(po): os.remove(po)
+                return ['script:legacy_only:' + keep], rng.choice(CONFIRMED_ENTRIES), rng.random() < 0.3, None
         if rng.random() < 0.5:
             m = next(m for m in cw.modules if m['type'] == 'instructions')
             m['files']['AGENTS.md'] = rng.choice([b'# shared rules v2\n', b'# other\n', b'# shared rules\n']); cw.write()
